@@ -43,7 +43,9 @@ def coherent_crop(dm, fmin_hz, fmax_hz, fref_hz, sr_hz, n):
     db = delay_samples(dm, fmin_hz, fref_hz, sr_hz)
     lo = -min(0, dt, db)
     hi = max(0, dt, db)
-    unconstrained = (lo != 0 and near_integer(lo)) or (hi != 0 and near_integer(hi))
+    # a band-edge delay that is non-zero but within 1e-9 of a whole sample (including ~1e-16 next to zero, e.g. when the
+    # reference is the band edge expressed in another unit) may fall on either side in float arithmetic: the crop is left open
+    unconstrained = any(d != 0 and near_integer(d) for d in (dt, db))
     start = math.ceil(lo)
     stop = n - math.ceil(hi)
     return start, stop, unconstrained, (dt, db)
